@@ -673,6 +673,8 @@ pub fn run_builder(pr: Proto, layer: Layer, ops: &[BOp], km: &KeyMat) -> Vec<Out
 pub enum POp {
     CheckClaim { key: String, value: Value, via: Via },
     ValidateClaim { key: String, kind: VKind },
+    /// validate_claim with a given value in the expected-claim entry (which must be ignored)
+    ValidateClaimWith { key: String, kind: VKind, value: Value },
     /// generic layer only
     ExtendValidators(Vec<(String, VKind)>),
     /// generic layer only
@@ -718,6 +720,9 @@ macro_rules! run_parser_impl {
                 POp::CheckClaim { key, value, via } => apply_check_claim!(p, check_claim, key.as_str(), value, via),
                 POp::ValidateClaim { key, kind } => {
                     p.validate_claim(AnyClaim { key: key.clone(), value: Value::Null }, validator_ref(*kind));
+                }
+                POp::ValidateClaimWith { key, kind, value } => {
+                    p.validate_claim(AnyClaim { key: key.clone(), value: value.clone() }, validator_ref(*kind));
                 }
                 POp::ExtendValidators(_kvs) => {
                     run_parser_impl!(@extv $gen, p, _kvs);
